@@ -182,6 +182,16 @@ def rewrites(s, path, kind):
                 with_node(dict(f, default=partial), "field-partial-record-default")
         except (KeyError, TypeError):
             pass
+        # bytes / fixed fields given a default whose characters stand for byte values above 0x7F (one character = one byte)
+        try:
+            ft = f["type"]
+            tdef = _inline(s, ft) if isinstance(ft, str) and ft not in PRIMS else ft
+            if tdef == "bytes" or (isinstance(tdef, dict) and tdef.get("type") == "bytes" and "logicalType" not in tdef):
+                with_node(dict(f, default="\u00ff\u0080\u0001"), "field-high-byte-default")
+            elif isinstance(tdef, dict) and tdef.get("type") == "fixed" and "logicalType" not in tdef and tdef["size"] >= 1:
+                with_node(dict(f, default=("\u00ff\u0001\u0080" * tdef["size"])[:tdef["size"]]), "field-high-byte-default")
+        except (KeyError, TypeError):
+            pass
         if "default" in f:
             with_node({k: v for k, v in f.items() if k != "default"}, "field-drop-default")
         else:
